@@ -208,6 +208,31 @@ func extractEffects(pkgs map[string]*pkgInfo) interface{} {
 							}
 						case *ast.IncDecStmt:
 							check(s.X, s.Pos())
+						case *ast.CallExpr:
+							// functions that modify their (first) argument in place
+							name := ""
+							switch f := s.Fun.(type) {
+							case *ast.Ident:
+								name = f.Name
+							case *ast.SelectorExpr:
+								if x, ok := f.X.(*ast.Ident); ok {
+									name = x.Name + "." + f.Sel.Name
+								}
+							}
+							inPlace := name == "copy" || name == "delete" || name == "clear" ||
+								strings.HasPrefix(name, "sort.") || strings.HasPrefix(name, "slices.Sort") || name == "slices.Reverse" ||
+								name == "rand.Shuffle"
+							if inPlace && len(s.Args) > 0 {
+								arg := s.Args[0]
+								if u, ok := arg.(*ast.UnaryExpr); ok {
+									arg = u.X
+								}
+								if _, isIdent := arg.(*ast.Ident); !isIdent {
+									check(arg, s.Pos())
+								} else if b := baseIdent(arg); b != nil && globals[b.Name] && !local[b.Name] && v.Name.Name != "init" {
+									out.GlobalWrites = append(out.GlobalWrites, effSite{short, fname, name + "(" + exprString(pk.fset, arg) + ")", pk.fset.Position(s.Pos()).String()})
+								}
+							}
 						}
 						return true
 					})
